@@ -931,4 +931,404 @@ theorem tcpMove_frame (n : NetSt) (src dst : String) (t : TcpSock) (h : n.tcp? s
       rw [this]
       by_cases hg : g = f <;> simp [hg, eq_comm]
 
+theorem tcpMove_udps (n : NetSt) (src dst : String) :
+    (n.tcpMove src dst).udps = n.udps ∧ (n.tcpMove src dst).reg.udp = n.reg.udp := by
+  cases h : n.tcp? src with
+  | none => rw [tcpMove_none n src dst h]; exact ⟨rfl, rfl⟩
+  | some t => rw [tcpMove_some n src dst t h]; exact ⟨rfl, rfl⟩
+
+/-! ### the open system `NS`: TCP labels -/
+
+def NLbl.isTcp : NLbl → Bool
+  | .tNew .. | .tOpen .. | .tBind .. | .tClose .. | .tDestroy .. | .tMove .. | .tConnect .. | .aListen ..
+  | .aClose .. | .tAttach .. | .tPatch .. => true
+  | _ => false
+
+/-- a TCP label never touches the ghost logs of the UDP sockets -/
+theorem NS.step_tcp_ghost (s : NS) (l : NLbl) (h : l.isTcp = true) :
+    (s.step l).acc = s.acc ∧ (s.step l).out = s.out := by
+  cases l <;> simp only [NLbl.isTcp] at h <;> try (exact absurd h (by decide))
+  all_goals (unfold NS.step; dsimp only)
+  all_goals (repeat' split)
+  all_goals exact ⟨rfl, rfl⟩
+
+/-- every TCP label except move construction: the UDP side is framed (`tFrame`) -/
+theorem NS.step_tcp_tFrame (s : NS) (l : NLbl) (h : l.isTcp = true) (hm : ∀ a b, l ≠ .tMove a b) :
+    s.n.tFrame (s.step l).n := by
+  have r := NetSt.tFrame.refl s.n
+  cases l <;> simp only [NLbl.isTcp] at h <;> try (exact absurd h (by decide))
+  case tMove a b => exact absurd rfl (hm a b)
+  all_goals simp only [NS.step]
+  case tNew name node isAcc => split; exact r.setTcp _ _; exact r
+  case tOpen now name v4 => exact r.tcpOpen _ _ _
+  case tBind name ep => exact r.tcpBind _ _
+  case tClose now name => exact r.tcpClose _ _
+  case tDestroy now name => exact r.tcpDestroy _ _
+  case tConnect now name target hh => exact r.tcpConnect _ _ _ _
+  case aListen name qs => exact r.accListen _ _
+  case aClose now name => exact r.accClose _ _
+  case tAttach now peer acceptor cid =>
+    split
+    · exact r
+    · split
+      · exact r.tcpAttach _ _ _ _
+      · exact r
+  case tPatch name t' chans' =>
+    split
+    · exact r
+    · split
+      · exact (r.of_eq (k := { s.n with chans := chans' }) rfl rfl rfl).setTcp _ _
+      · exact r
+
+theorem NS.step_tcp_udps (s : NS) (l : NLbl) (h : l.isTcp = true) :
+    (s.step l).n.udps = s.n.udps ∧ (s.step l).n.reg.udp = s.n.reg.udp := by
+  by_cases hm : ∀ a b, l ≠ .tMove a b
+  · have := NS.step_tcp_tFrame s l h hm
+    exact ⟨this.udps, this.regU⟩
+  · have : ∃ a b, l = .tMove a b := by
+      apply Classical.byContradiction; intro hc; apply hm; intro a b e; exact hc ⟨a, b, e⟩
+    obtain ⟨a, b, e⟩ := this
+    subst e
+    simp only [NS.step]
+    split
+    · exact tcpMove_udps _ _ _
+    · exact ⟨rfl, rfl⟩
+
+theorem NS.step_tcp_udp? (s : NS) (l : NLbl) (h : l.isTcp = true) (x : String) :
+    (s.step l).n.udp? x = s.n.udp? x := by
+  unfold NetSt.udp?; rw [(NS.step_tcp_udps s l h).1]
+
+/-! ### the system invariant -/
+
+/-- The data invariant of the open system: every UDP socket object satisfies the per-socket
+    invariant (`account`, `closed_empty`, `hand`, `pend` are `UdpSock.DOk` clause by clause) and
+    the ghost logs account for every accepted datagram exactly once, in arrival order (`fifo`). -/
+structure DInv (s : NS) : Prop where
+  account : ∀ name u, s.n.udp? name = some u → u.isOpen = true → u.queueSize = paySum u.queue
+  closed_empty : ∀ name u, s.n.udp? name = some u → u.isOpen = false → u.queue = []
+  hand : ∀ name u, s.n.udp? name = some u →
+    (u.recvH.isSome = true → u.recvNull = false) ∧ (u.waitRecvH.isSome = true → u.recvNull = true)
+  pend : ∀ name u, s.n.udp? name = some u → (u.recvH.isSome = true ∨ u.waitRecvH.isSome = true) →
+    u.queue = [] ∧ u.isOpen = true ∧ u.bound.isDefault = false
+  fifo : ∀ name, s.acc name = (s.out name).map Prod.fst ++ s.n.uqueue name
+
+theorem DInv.dok {s : NS} (h : DInv s) {name : String} {u : UdpSock} (hu : s.n.udp? name = some u) : u.DOk :=
+  ⟨h.account name u hu, h.closed_empty name u hu, (h.hand name u hu).1, (h.hand name u hu).2, h.pend name u hu⟩
+
+theorem DInv.of_dok {s : NS} (hd : ∀ name u, s.n.udp? name = some u → u.DOk)
+    (hf : ∀ name, s.acc name = (s.out name).map Prod.fst ++ s.n.uqueue name) : DInv s :=
+  ⟨fun x u hu => (hd x u hu).acct, fun x u hu => (hd x u hu).cle, fun x u hu => ⟨(hd x u hu).h1, (hd x u hu).h2⟩,
+   fun x u hu => (hd x u hu).pend, hf⟩
+
+theorem DInv.init (c : NetCfg) : DInv (NS.init c) := by
+  apply DInv.of_dok
+  · intro name u hu; simp [NS.init, NetSt.udp?] at hu
+  · intro name; simp [NS.init, NetSt.uqueue, NetSt.udp?]
+
+theorem uqueue_of_udp? {n n' : NetSt} {x : String} (h : n'.udp? x = n.udp? x) : n'.uqueue x = n.uqueue x := by
+  unfold NetSt.uqueue; rw [h]
+
+theorem uqueue_some {n : NetSt} {x : String} {u : UdpSock} (h : n.udp? x = some u) : n.uqueue x = u.queue := by
+  unfold NetSt.uqueue; rw [h]; rfl
+
+theorem uqueue_none {n : NetSt} {x : String} (h : n.udp? x = none) : n.uqueue x = [] := by
+  unfold NetSt.uqueue; rw [h]; rfl
+
+theorem NetSt.udpSame.uqueue {n n' : NetSt} (h : n.udpSame n') (x : String) : n'.uqueue x = n.uqueue x := by
+  rcases h x with ⟨a, b⟩ | ⟨u, u', a, b, c⟩
+  · rw [uqueue_none a, uqueue_none b]
+  · rw [uqueue_some a, uqueue_some b]; exact c.1
+
+/-- a step that changes neither the logs nor any queue -/
+theorem DInv.plainStep {s : NS} (h : DInv s) (s' : NS) (ha : s'.acc = s.acc) (ho : s'.out = s.out)
+    (hd : ∀ x u', s'.n.udp? x = some u' → u'.DOk) (hq : ∀ x, s'.n.uqueue x = s.n.uqueue x) : DInv s' := by
+  apply DInv.of_dok hd
+  intro x; rw [ha, ho, hq]; exact h.fifo x
+
+/-- control-path steps -/
+theorem DInv.ctl {s : NS} (h : DInv s) (s' : NS) (ha : s'.acc = s.acc) (ho : s'.out = s.out)
+    (hs : s.n.udpSame s'.n) : DInv s' := by
+  apply h.plainStep s' ha ho
+  · intro x u' hu'
+    rcases hs x with ⟨a, b⟩ | ⟨u, u2, a, b, c⟩
+    · rw [b] at hu'; simp at hu'
+    · rw [b] at hu'; simp at hu'; subst hu'
+      exact (h.dok a).sameData c
+  · exact hs.uqueue
+
+/-- a step on socket `name` that can only hand the head of its queue to a reader -/
+theorem DInv.readStep {s : NS} (h : DInv s) (name : String) (n' : NetSt)
+    (hoth : ∀ x, x ≠ name → n'.udp? x = s.n.udp? x) (hd : ∀ u', n'.udp? name = some u' → u'.DOk)
+    (hq : QTail (s.n.uqueue name) (n'.uqueue name)) : DInv (s.readStep name n') := by
+  apply DInv.of_dok
+  · intro x u' hu'
+    by_cases hx : x = name
+    · subst hx; exact hd u' hu'
+    · have : n'.udp? x = some u' := hu'
+      rw [hoth x hx] at this; exact h.dok this
+  · intro x
+    by_cases hx : x = name
+    · subst hx
+      simp only [NS.readStep, setS_same, List.map_append, List.map_map]
+      have e : (Prod.fst ∘ fun (x : Pkt) => (x, true)) = id := rfl
+      rw [h.fifo x, e, List.map_id, List.append_assoc, hq.popped_append]
+    · simp only [NS.readStep, setS_other _ _ _ _ hx]
+      rw [h.fifo x, uqueue_of_udp? (hoth x hx)]
+
+/-- a step that discards everything socket `name` has queued -/
+theorem DInv.discardStep {s : NS} (h : DInv s) (name : String) (n' : NetSt)
+    (hoth : ∀ x, x ≠ name → n'.udp? x = s.n.udp? x) (hd : ∀ u', n'.udp? name = some u' → u'.DOk)
+    (hq : n'.uqueue name = []) : DInv (s.discardStep name n') := by
+  apply DInv.of_dok
+  · intro x u' hu'
+    by_cases hx : x = name
+    · subst hx; exact hd u' hu'
+    · have : n'.udp? x = some u' := hu'
+      rw [hoth x hx] at this; exact h.dok this
+  · intro x
+    by_cases hx : x = name
+    · subst hx
+      simp only [NS.discardStep, setS_same, List.map_append, List.map_map]
+      have e : (Prod.fst ∘ fun (x : Pkt) => (x, false)) = id := rfl
+      rw [h.fifo x, e, List.map_id, hq, List.append_nil]
+    · simp only [NS.discardStep, setS_other _ _ _ _ hx]
+      rw [h.fifo x, uqueue_of_udp? (hoth x hx)]
+
+/-- a step that maps socket `name` without touching its queue or the logs -/
+theorem DInv.mapStep {s : NS} (h : DInv s) (name : String) (g : UdpSock → UdpSock)
+    (hg : ∀ u, s.n.udp? name = some u → u.DOk → (g u).DOk ∧ (g u).queue = u.queue) :
+    DInv { s with n := s.n.mapUdp name g } := by
+  refine h.plainStep { s with n := s.n.mapUdp name g } rfl rfl ?_ ?_
+  · intro x u' hu'
+    have hu2 : (s.n.mapUdp name g).udp? x = some u' := hu'
+    rw [udp?_mapUdp] at hu2
+    by_cases hx : x = name
+    · subst hx
+      cases hu : s.n.udp? x with
+      | none => simp [hu] at hu2
+      | some u => simp [hu] at hu2; subst hu2; exact (hg u hu (h.dok hu)).1
+    · simp [hx] at hu2; exact h.dok hu2
+  · intro x
+    show (s.n.mapUdp name g).uqueue x = s.n.uqueue x
+    by_cases hx : x = name
+    · subst hx
+      cases hu : s.n.udp? x with
+      | none => exact uqueue_of_udp? (by rw [udp?_mapUdp]; simp [hu])
+      | some u =>
+        rw [uqueue_some hu, uqueue_some (u := g u) (by rw [udp?_mapUdp]; simp [hu])]
+        exact (hg u hu (h.dok hu)).2
+    · exact uqueue_of_udp? (by rw [udp?_mapUdp]; simp [hx])
+
+/-- a receive call on socket `name` -/
+theorem DInv.mapRead {s : NS} (h : DInv s) (name : String) (g : UdpSock → UdpSock)
+    (hg : ∀ u, s.n.udp? name = some u → u.DOk → (g u).DOk ∧ QTail u.queue (g u).queue) :
+    DInv (s.readStep name (s.n.mapUdp name g)) := by
+  apply h.readStep
+  · intro x hx; rw [udp?_mapUdp]; simp [hx]
+  · intro u' hu'
+    rw [udp?_mapUdp] at hu'
+    cases hu : s.n.udp? name with
+    | none => simp [hu] at hu'
+    | some u => simp [hu] at hu'; subst hu'; exact (hg u hu (h.dok hu)).1
+  · cases hu : s.n.udp? name with
+    | none =>
+      rw [uqueue_none hu, uqueue_none (by rw [udp?_mapUdp]; simp [hu])]; exact QTail.refl _
+    | some u =>
+      rw [uqueue_some hu, uqueue_some (u := g u) (by rw [udp?_mapUdp]; simp [hu])]
+      exact (hg u hu (h.dok hu)).2
+
+/-- the components of a delivery that reaches a UDP socket -/
+theorem NS.step_deliver_some (s : NS) (f : Nat) (p : Pkt) (name : String) (u : UdpSock)
+    (hf : s.n.fwdTarget f = some name) (hu : s.n.udp? name = some u) :
+    (s.step (.deliver f p)).n = s.n.setUdp name (u.incoming p).1
+    ∧ (s.step (.deliver f p)).acc
+        = (if u.queueSize + p.size > 262144 then s.acc else setS s.acc name (s.acc name ++ [p]))
+    ∧ (s.step (.deliver f p)).out = setS s.out name (s.out name ++
+        (popped (if u.queueSize + p.size > 262144 then u.queue else u.queue ++ [p]) (u.incoming p).1.queue).map (·, true))
+    ∧ (s.step (.deliver f p)).attached = s.attached := by
+  simp only [NS.step, hf, hu]
+  by_cases hc : u.queueSize + p.size > 262144 <;> simp [hc]
+
+theorem NS.step_deliver_none (s : NS) (f : Nat) (p : Pkt) (hf : s.n.fwdTarget f = none) :
+    s.step (.deliver f p) = s := by
+  simp only [NS.step, hf]
+
+theorem NS.step_deliver_tcp (s : NS) (f : Nat) (p : Pkt) (name : String) (hf : s.n.fwdTarget f = some name)
+    (hu : s.n.udp? name = none) : s.step (.deliver f p) = s := by
+  simp only [NS.step, hf, hu]
+
+theorem DInv.deliver {s : NS} (h : DInv s) (hr : RInv s) (f : Nat) (p : Pkt) : DInv (s.step (.deliver f p)) := by
+  cases hf : s.n.fwdTarget f with
+  | none => rw [NS.step_deliver_none s f p hf]; exact h
+  | some name =>
+    cases hu : s.n.udp? name with
+    | none => rw [NS.step_deliver_tcp s f p name hf hu]; exact h
+    | some u =>
+      obtain ⟨e1, e2, e3, _⟩ := NS.step_deliver_some s f p name u hf hu
+      have ho := (hr.deliver_open hf hu).1
+      apply DInv.of_dok
+      · intro x u' hu'
+        rw [e1, udp?_setUdp] at hu'
+        by_cases hx : x = name
+        · simp [hx] at hu'; subst hu'; exact (h.dok hu).incoming p ho
+        · simp [hx] at hu'; exact h.dok hu'
+      · intro x
+        rw [e1, e2, e3]
+        by_cases hx : x = name
+        · subst hx
+          rw [uqueue_some (u := (u.incoming p).1) (by simp)]
+          have hfx := h.fifo x
+          rw [uqueue_some hu] at hfx
+          have e : (Prod.fst ∘ fun (x : Pkt) => (x, true)) = id := rfl
+          rcases u.incoming_cases p with ⟨hc, ei⟩ | ⟨hc, _, hq⟩
+          · simp only [hc, if_true, ei, popped_self, setS_same, List.map_nil, List.append_nil]
+            exact hfx
+          · simp only [hc, if_false, setS_same, List.map_append, List.map_map, e, List.map_id]
+            rw [List.append_assoc, hq.popped_append, hfx, List.append_assoc]
+        · rw [uqueue_of_udp? (n := s.n) (by simp [hx])]
+          simp only [setS_other _ _ _ _ hx]
+          split
+          · exact h.fifo x
+          · rw [setS_other _ _ _ _ hx]; exact h.fifo x
+
+theorem DInv.uMove {s : NS} (h : DInv s) (src dst : String) : DInv (s.step (.uMove src dst)) := by
+  simp only [NS.step]
+  split
+  · rename_i hg
+    simp only [Bool.and_eq_true] at hg
+    obtain ⟨hfr, hsome⟩ := hg
+    have hdn : s.n.udp? dst = none := by
+      simp only [NetSt.fresh, Bool.and_eq_true, Option.isNone_iff_eq_none] at hfr; exact hfr.1
+    obtain ⟨u, hu⟩ := Option.isSome_iff_exists.mp hsome
+    have hne : dst ≠ src := by intro e; rw [e, hu] at hdn; simp at hdn
+    apply DInv.of_dok
+    · intro x u' hu'
+      have hu2 : (s.n.udpMove src dst).udp? x = some u' := hu'
+      rw [udpMove_udp? s.n src dst x u hu] at hu2
+      by_cases hx : x = src
+      · simp [hx] at hu2; subst hu2; exact UdpSock.DOk.movedFrom u
+      · by_cases hx2 : x = dst
+        · simp [hx2, hne] at hu2; subst hu2; exact h.dok hu
+        · simp [hx, hx2] at hu2; exact h.dok hu2
+    · intro x
+      show setS (setS s.acc dst (s.acc src)) src [] x
+        = (setS (setS s.out dst (s.out src)) src [] x).map Prod.fst ++ (s.n.udpMove src dst).uqueue x
+      by_cases hx : x = src
+      · subst hx
+        rw [uqueue_some (u := u.movedFrom) (by rw [udpMove_udp? s.n x dst x u hu]; simp)]
+        simp [UdpSock.movedFrom]
+      · by_cases hx2 : x = dst
+        · subst hx2
+          rw [uqueue_some (u := u) (by rw [udpMove_udp? s.n src x x u hu]; simp [hx])]
+          simp only [setS_other _ _ _ _ hx, setS_same]
+          have := h.fifo src
+          rw [uqueue_some hu] at this; exact this
+        · rw [uqueue_of_udp? (n := s.n) (by rw [udpMove_udp? s.n src dst x u hu]; simp [hx, hx2])]
+          simp only [setS_other _ _ _ _ hx, setS_other _ _ _ _ hx2]
+          exact h.fifo x
+  · exact h
+
+theorem DInv.step {s : NS} (h : DInv s) (hr : RInv s) (l : NLbl) : DInv (s.step l) := by
+  by_cases ht : l.isTcp = true
+  · obtain ⟨ha, ho⟩ := NS.step_tcp_ghost s l ht
+    exact h.ctl _ ha ho (NetSt.udpSame.of_udps (NS.step_tcp_udps s l ht).1)
+  cases l <;> try (exact absurd rfl ht)
+  case uNew name node =>
+    simp only [NS.step]
+    split
+    · rename_i hfr
+      have hn : s.n.udp? name = none := by
+        simp only [NetSt.fresh, Bool.and_eq_true, Option.isNone_iff_eq_none] at hfr; exact hfr.1
+      refine h.plainStep { s with n := s.n.udpNew name node } rfl rfl ?_ ?_
+      · intro x u' hu'
+        have hu2 : (s.n.setUdp name { node := node }).udp? x = some u' := hu'
+        rw [udp?_setUdp] at hu2
+        by_cases hx : x = name
+        · simp [hx] at hu2; subst hu2; exact UdpSock.DOk.fresh node
+        · simp [hx] at hu2; exact h.dok hu2
+      · intro x
+        show (s.n.setUdp name { node := node }).uqueue x = s.n.uqueue x
+        by_cases hx : x = name
+        · subst hx; rw [uqueue_none hn, uqueue_some (u := { node := node }) (by simp)]
+        · exact uqueue_of_udp? (by simp [hx])
+    · exact h
+  case uOpen name v4 =>
+    refine h.discardStep name _ (fun x hx => by rw [udpOpen_udp?]; simp [hx]) ?_ ?_
+    · intro u' hu'
+      rw [udpOpen_udp?] at hu'
+      cases hu : s.n.udp? name with
+      | none => simp [hu] at hu'
+      | some u => simp [hu] at hu'; subst hu'; exact UdpSock.DOk.opened u v4 _
+    · cases hu : s.n.udp? name with
+      | none => exact uqueue_none (by rw [udpOpen_udp?]; simp [hu])
+      | some u => rw [uqueue_some (u := u.opened v4 s.n.fwds.length) (by rw [udpOpen_udp?]; simp [hu])]; rfl
+  case uBind name ep => exact h.ctl _ rfl rfl (udpBind_ctlStep s.n name ep).same
+  case uClose name =>
+    refine h.discardStep name _ (fun x hx => by rw [udpClose_udp?]; simp [hx]) ?_ ?_
+    · intro u' hu'
+      rw [udpClose_udp?] at hu'
+      cases hu : s.n.udp? name with
+      | none => simp [hu] at hu'
+      | some u => simp [hu] at hu'; subst hu'; exact UdpSock.DOk.closed u
+    · cases hu : s.n.udp? name with
+      | none => exact uqueue_none (by rw [udpClose_udp?]; simp [hu])
+      | some u => rw [uqueue_some (u := u.closed) (by rw [udpClose_udp?]; simp [hu])]; rfl
+  case uDestroy name =>
+    refine h.discardStep name _ (fun x hx => by rw [udpDestroy_udp?]; simp [hx]) ?_ ?_
+    · intro u' hu'
+      rw [udpDestroy_udp?] at hu'; simp at hu'
+    · exact uqueue_none (by rw [udpDestroy_udp?]; simp)
+  case uMove src dst => exact h.uMove src dst
+  case uSendTo now name dst payload => exact h.ctl _ rfl rfl (udpSendTo_ctlStep s.n now name dst payload).same
+  case uRecv name op =>
+    show DInv (s.readStep name (s.n.udpAsyncRecv name op).1)
+    rw [udpAsyncRecv_fst]
+    exact h.mapRead name _ (fun u _ hd => ⟨hd.abortRecv.asyncReceive op rfl, UdpSock.asyncReceive_qtail _ op⟩)
+  case uRecvNb name caps =>
+    show DInv (s.readStep name (s.n.udpRecvNb name caps).1)
+    rw [udpRecvNb_fst]
+    exact h.mapRead name _ (fun u _ hd => ⟨hd.abortRecv.receiveFrom caps, UdpSock.receiveFrom_qtail _ caps⟩)
+  case uWaitRead name hh =>
+    show DInv { s with n := (s.n.udpWaitRead name hh).1 }
+    rw [udpWaitRead_fst]
+    exact h.mapStep name _ (fun u _ hd => ⟨hd.abortRecv.asyncWaitReceive hh rfl, UdpSock.asyncWaitReceive_queue _ hh⟩)
+  case uWaitWrite now name hh =>
+    refine h.ctl _ rfl rfl ?_
+    show s.n.udpSame (s.n.udpWaitWrite now name hh).1
+    rw [udpWaitWrite_fst]
+    exact NetSt.udpSame.mapUdp _ _ _ (fun u => by split <;> exact ⟨rfl, rfl, rfl, rfl, rfl, rfl, rfl, rfl, fun _ => rfl⟩)
+  case uSendWaitFired name ab =>
+    refine h.ctl _ rfl rfl ?_
+    show s.n.udpSame (s.n.udpSendWaitFired name ab).1
+    intro x
+    rw [udpSendWaitFired_udp?]
+    by_cases hx : x = name
+    · subst hx
+      cases hu : s.n.udp? x with
+      | none => left; simp
+      | some u =>
+        right; refine ⟨u, (if ab = true then u else { u with waitSendH := none }), rfl, by simp, ?_⟩
+        split <;> exact ⟨rfl, rfl, rfl, rfl, rfl, rfl, rfl, rfl, fun _ => rfl⟩
+    · simp only [hx, if_false]
+      cases hu : s.n.udp? x with
+      | none => left; exact ⟨rfl, rfl⟩
+      | some u => right; exact ⟨u, u, rfl, rfl, UdpSock.sameData.refl u⟩
+  case uCancel name =>
+    show DInv { s with n := (s.n.udpCancel name).1 }
+    rw [udpCancel_fst]
+    exact h.mapStep name _ (fun u _ hd => ⟨hd.cancel name, by rw [UdpSock.cancel_fst]⟩)
+  case uSetDf name df =>
+    simp only [NS.step]
+    split
+    · rename_i u hu
+      exact h.ctl _ rfl rfl (NetSt.udpSame.setUdp hu ⟨rfl, rfl, rfl, rfl, rfl, rfl, rfl, rfl, fun _ => rfl⟩)
+    · exact h
+  case deliver f p => exact h.deliver hr f p
+
+theorem DInv.run (c : NetCfg) (hc : c.WF) (ls : List NLbl) : DInv ((NS.init c).run ls) := by
+  suffices H : ∀ (s : NS), DInv s → RInv s → DInv (s.run ls) from H _ (DInv.init c) (RInv.init c hc)
+  induction ls with
+  | nil => intro s h _; exact h
+  | cons l ls ih => intro s h hr; exact ih (s.step l) (h.step hr l) (hr.step l)
+
 end SimVerif
